@@ -31,6 +31,7 @@ func checkC08(rep *Report, rng *Rng, tier string) {
 	if tier == "thorough" {
 		n = 5000
 	}
+	probeValueIsRootRecord(rep)
 	dmodelOn = true
 	rep.Rule = "seeded histories over a file-backed store with 0..many Flush calls, re-opens, pending unflushed changes and runs of 1..8 consecutive FlushRevert calls (also past the first flush); after every step the contents of the store, the collection names, the file length and a fresh Store opened on a copy of the file image are compared with the stack of flushed reference states; a watchdog detects non-termination; memory-only stores must reject FlushRevert; non-trivial = contains at least one revert and 8 ops"
 	HistoryLoop(rep, rng, n, func(r *Rng, i int) (RunCfg, []Op, string) {
@@ -38,10 +39,12 @@ func checkC08(rep *Report, rng *Rng, tier string) {
 		return d.RunCfg(), ops, d.String()
 	}, nil)
 	rep.Extra["steps_compared_with_byte_level_model_DStore"] = dmodelSteps
+	rep.Extra["histories_satisfying_history_ok_of_c02_history"] = dmodelHistOK
+	rep.Extra["histories_outside_history_ok"] = dmodelHistNotOK
 }
 
 func checkC12(rep *Report, rng *Rng, tier string) {
-	n := 250
+	n := 400
 	if tier == "thorough" {
 		n = 5000
 	}
